@@ -114,7 +114,7 @@ func (e live) genRepl(r *core.PRNG, w *LiveWorld) LStep {
 	}
 	var cands []int
 	for _, en := range w.Ents {
-		if en.Pkg == 0 && en.Kind != "zvar" {
+		if en.Pkg == 0 && en.Kind != "zvar" && en.Kind != "bulk" {
 			cands = append(cands, en.ID)
 		}
 	}
@@ -871,6 +871,10 @@ func (run *liveRun) obs(kind string, id int, val goatlang.Value) {
 			}
 			run.fail(rule, kind, "%s of entity %d reports %d (version %d), but the versions it may have after the loads so far are %s", what, id, v, ver, st)
 		}
+	case "bk":
+		if st := run.ent[id]; st != nil && !st.unknown && v != bulkN {
+			run.fail("C17/reinit", "bulk", "initialised slice variable %d has %d elements, every version initialises it with %d", id, v, bulkN)
+		}
 	case "zv":
 		st := run.ent[id]
 		if st == nil || st.unknown {
@@ -932,6 +936,8 @@ func (run *liveRun) checkComplete() {
 			need(fmt.Sprintf("iv%d", e.ID), "variable")
 		case "zvar":
 			need(fmt.Sprintf("zv%d", e.ID), "variable")
+		case "bulk":
+			need(fmt.Sprintf("bk%d", e.ID), "variable")
 		case "method":
 			if run.instUp {
 				need(fmt.Sprintf("im%d", e.ID), "instance")
